@@ -577,6 +577,7 @@ func (i *IPv6Routing) SerializeTo(b gopacket.SerializeBuffer, opts gopacket.Seri
 	bytes[1] = byte(hdrExtLen)
 	bytes[2] = i.RoutingType
 	bytes[3] = i.SegmentsLeft
+	copy(bytes[4:8], lotsOfZeros[:4])
 	copy(bytes[4:8], i.Reserved)
 	for i, ip := range i.SourceRoutingIPs {
 		offset := 8 + i*16
